@@ -821,13 +821,15 @@ func (handler *datasetHandler) processEntities(
 	}
 
 	// start new fullsync if requested
+	var fullSyncGen uint64 // the sync this request belongs to
 	if fullSyncStart {
-		err2 := dataset.StartFullSyncWithLease(fullSyncID)
+		var err2 error
+		fullSyncGen, err2 = dataset.StartFullSyncWithLeaseGen(fullSyncID)
 		if err2 != nil {
 			return echo.NewHTTPError(http.StatusConflict, server.HTTPFullsyncErr(err2).Error())
 		}
 	} else if dataset.FullSyncStarted() {
-		err = dataset.RefreshFullSyncLease(fullSyncID)
+		fullSyncGen, err = dataset.RefreshFullSyncLeaseGen(fullSyncID)
 		if err != nil {
 			return echo.NewHTTPError(http.StatusConflict, server.HTTPFullsyncErr(err).Error())
 		}
@@ -864,10 +866,10 @@ func (handler *datasetHandler) processEntities(
 
 	if fullSyncEnd {
 		verifhook.Point("web.fullsync.beforeRelease")
-		if err := dataset.ReleaseFullSyncLease(fullSyncID); err != nil {
-			return echo.NewHTTPError(http.StatusGone, server.HTTPGenericErr(err).Error())
-		}
-		if err := dataset.CompleteFullSync(c.Request().Context()); err != nil {
+		if leaseFound, err := dataset.EndFullSync(c.Request().Context(), fullSyncID, fullSyncGen); err != nil {
+			if !leaseFound {
+				return echo.NewHTTPError(http.StatusGone, server.HTTPGenericErr(err).Error())
+			}
 			return echo.NewHTTPError(http.StatusInternalServerError, server.HTTPGenericErr(err).Error())
 		}
 	}
